@@ -31,8 +31,10 @@ PART_FILES = ["fv.bin", "meta.bin", "metadata.json", "primary.bin", "tag.type", 
 
 THEOREMS = ["Banyan.C04." + t for t in [
     "writeAtomic_atomic", "writeAtomic_durable", "recovery_spec", "recover_treeOK", "recover_treeOK0",
-    "nsok_apply", "inv_at_cut", "cut_decomposition", "crash_recovers_kill", "crash_recovers_power",
-    "crash_recovers_prefix_partial", "recoverLegacy_leaves_stale_manifest", "recover_removes_stale_manifest",
+    "nsok_apply", "inv_at_cut", "acc_at_cut", "cut_decomposition", "crash_recovers_kill", "crash_recovers_power",
+    "crash_recovers_prefix_partial", "crash_recovers_prefix", "crash_recovers_published", "served_batches_of_acc",
+    "opSteps_split", "opPre_ends_with_publication", "pubDone_take_opPre", "pubDone_opPre",
+    "recoverLegacy_leaves_stale_manifest", "recover_removes_stale_manifest",
     "recoverLegacy_leaves_tmp_manifest", "recover_removes_tmp_manifest"]] + ["Banyan.Tie.C04." + t for t in [
     "meta_name", "primary_name", "timestamps_name", "fv_name", "tf_name", "tfm_name", "tagType_name",
     "metadata_name", "snapshot_suffix", "tmp_suffix", "writeAtomic_order", "mustFlush_order", "mergeParts_order",
@@ -480,8 +482,10 @@ def trunc_tokens(full_tokens, have, total):
     toks = full_tokens.split(".") if full_tokens != "-" else []
     if have >= total:
         return full_tokens
-    if have <= 0 or len(toks) < 2:
+    if have <= 0 or not toks:
         return "-"
+    if len(toks) < 2:
+        return full_tokens   # an already truncated content cut again: still a non-empty proper prefix
     k = max(1, min((have * len(toks)) // total, len(toks) - 1))
     return ".".join(toks[:k])
 
@@ -489,8 +493,10 @@ def trunc_tokens(full_tokens, have, total):
 def trunc_bytes(full_bytes, have_toks, total_toks):
     if have_toks >= total_toks:
         return full_bytes
-    if have_toks <= 0 or len(full_bytes) < 2:
+    if have_toks <= 0 or not full_bytes:
         return b""
+    if len(full_bytes) < 2:
+        return full_bytes
     k = max(1, min((len(full_bytes) * have_toks) // total_toks, len(full_bytes) - 1))
     return full_bytes[:k]
 
